@@ -71,6 +71,10 @@ def warmup():
     dfac.clear_lib_cache()
 
 
+class InjectedCrash(RuntimeError):
+    """The user's simulation crashes (not a ValueError: no driver swallows it)."""
+
+
 class Runaway(BaseException):
     """The harness stops a driver that ignores its budget by far (guard against endless runs)."""
 
@@ -159,6 +163,14 @@ class Tracked:
                 self.ctx.fire("callable_returns_nan")
             v = self.fn(x)
             return v * float("nan")
+        if plan.get("crash", {}).get(self.name) == j and not plan.get("crashed"):
+            plan["crashed"] = True  # once: the next execution finds a working simulation
+            if self.ctx is not None:
+                self.ctx.fire("callable_crashes_RuntimeError")
+            if new:
+                self.points.pop()  # (an evaluation that crashed is not a point the function was evaluated at)
+            self.calls.pop()
+            raise InjectedCrash(f"injected crash of {self.name} at its {j}-th distinct point")
         if plan["raise"].get(self.name) == j:
             if self.ctx is not None:
                 self.ctx.fire("callable_raises_ValueError")
@@ -260,7 +272,7 @@ def plan_from_tape(t, cfg, budget):
     faults_on = t.flag(0.6, "faults_on")
     plan["duration"] = t.pick([0.0, 0.001, 1.0, 3600.0], "call_duration")
     if faults_on:
-        k = t.weighted([5, 3, 2, 2, 1 if (cfg["doe"] and cfg["user_jac"]) else 0], "fault_kind")
+        k = t.weighted([5, 3, 2, 2, 1 if (cfg["doe"] and cfg["user_jac"]) else 0, 1], "fault_kind")
         j = 1 + t.choice(max(2, min(budget + 2, 12)), "fault_at")
         if k == 1:
             plan["nan"]["f"] = j
@@ -272,6 +284,10 @@ def plan_from_tape(t, cfg, budget):
             else:
                 plan["jump_at"] = j
                 plan["jump"] = t.pick([86400.0, -3600.0, 1e7], "clock_jump")
+        elif k == 5:
+            # the simulation crashes once (an exception no driver handles): the execution raises, which is the user's
+            # problem - but the NEXT execution on the same problem must behave as usual
+            plan["crash"] = {"f": 1 + t.choice(3, "crash_at")}
         elif k == 4:
             # a user Jacobian returns NaN at its j-th distinct point (DOE with eval_jac: the NaN is recorded, the DOE goes on)
             plan["nan_jac"] = {("dg" if cfg["ineq"] and t.flag(0.5, "nan_in_dg") else "df"): j}
@@ -362,6 +378,8 @@ def run_driver(ctx, focus):
             # parallel sub-optimisations only with COBYLA: SLSQP can loop forever at recorded points (10.5), its
             # worker would then be killed by the CPU limit and gemseo's pool would wait for it forever
             settings["n_processes"] = 1 + (t.choice(2, "multistart_n_processes") if settings["opt_algo_name"] == "NLOPT_COBYLA" else 0)
+            if plan.get("crash"):
+                settings["n_processes"] = 1  # (a crash inside a forked sub-optimisation is not replayable: each worker has its own plan)
         if lib_name.startswith("Augmented_Lagrangian"):
             settings["sub_algorithm_name"] = "L-BFGS-B" if lib_name.endswith("1") else "NELDER-MEAD"
             settings["sub_algorithm_settings"] = {"max_iter": 1 + t.choice(6, "sub_max_iter")}
@@ -384,6 +402,8 @@ def run_driver(ctx, focus):
         if (t.flag(0.3, "eval_jac") or plan.get("nan_jac")) and cfg["user_jac"]:
             settings["eval_jac"] = True
     n_exec = 1 + t.weighted([6, 2, 1], "n_executions")
+    if plan.get("crash"):
+        n_exec = max(n_exec, 2)
     reset = not t.flag(0.3, "no_counter_reset")
     if lib_name == "NLOPT_BFGS" and plan["nan"]:
         # NLopt's L-BFGS is nondeterministic once a callback has raised (it sometimes evaluates one more
@@ -408,6 +428,7 @@ def run_driver(ctx, focus):
 
         problem.database.add_store_listener(listener)
     total_new = 0
+    crashed_before = False
     since_reset = 0  # new entries created since the counters were last reset, counted by the harness
     with rebind([("gemseo.algos.base_driver_library", "time", clock.time)]):
         for e in range(n_exec):
@@ -443,6 +464,13 @@ def run_driver(ctx, focus):
                 except Inconclusive:
                     ctx.probe(f"endless_loop_at_recorded_points[{lib_name}]")
                     raise
+                except InjectedCrash:
+                    # not the driver's fault; what it leaves behind is checked on the next execution
+                    crashed_before = True
+                    since_reset += len(problem.database) - n_before
+                    total_new += len(problem.database) - n_before
+                    ctx.event("exec", e, "crashed", len(problem.database))
+                    continue
                 except Exception as ex:  # noqa: BLE001
                     exc = ex
                 except Runaway as ex:
@@ -450,6 +478,12 @@ def run_driver(ctx, focus):
                     lib._clear_listeners(problem)
                 n_new = len(problem.database) - n_before
                 total_new += n_new
+                if crashed_before and exc is None and kw.get("use_database", True) and not plan["nan"] and lib_name not in COMPOSITE:
+                    # the execution after a crashed one counts its own new points, once each
+                    counted = problem.evaluation_counter.current - (0 if (e == 0 or reset) else counter_before)
+                    if counted != n_new:
+                        ctx.violate("C03.budget_entries", sig + " after-crashed-execution", f"execution {e} follows an execution in which the objective raised an exception: it created {n_new} new entries but its evaluation counter advanced by {counted}; cfg={cfg}")
+                    ctx.probe("execution_after_a_crashed_one")
                 if cfg["doe"]:
                     allowed = max(0, len(lib.samples) - since_reset) if len(getattr(lib, "samples", ())) else budget
                 else:
